@@ -3,7 +3,7 @@ CONSTANTS
   NF = 2
   Mods = {"A", "B"}
   BindOptions = {{}, {"int=user"}, {"float=none", "len=user"}, {"int=zero", "float=user", "len=none"}}
-  Faults = {"none", "py_before", "guppy_before", "py_after", "guppy_after", "bad_return"}
+  Faults = {"none", "py_before", "guppy_before", "intr_before", "py_after", "guppy_after", "intr_after", "bad_return"}
   AllowNest = TRUE
   MaxCompiles = 2
   EmitHist = TRUE
